@@ -58,3 +58,15 @@ Proof.
   destruct f; cbn; repeat split; try discriminate; try reflexivity; try tauto;
     try (intros [H|H]; discriminate).
 Qed.
+
+(* ---- join / replace(dict) are parameterised by the context's str conversion ---------------------- *)
+Lemma conv_spec f parts sep s k v rest cnt :
+  join_with f parts sep = join sep (map f parts) /\
+  join_with str_of parts sep = join_scalars parts sep /\
+  replace_dict_with str_of s rest cnt = replace_dict s rest cnt /\
+  replace_dict_with f s ((k, v) :: rest) cnt = replace_dict_with f (str_replace s (f k) (f v) cnt) rest cnt /\
+  (forall g, (forall x, In x parts -> f x = g x) -> join_with f parts sep = join_with g parts sep).
+Proof.
+  repeat split; try reflexivity.
+  intros g H. unfold join_with. f_equal. apply map_ext_in. exact H.
+Qed.
